@@ -208,8 +208,11 @@ Section Mixed.
         + unfold slot_at. rewrite T7. exact Hs.
         + rewrite IMM7. exact Hi.
       - split; [intros t0 pos ser label act Hs; unfold slot_at in *; rewrite T7 in Hs; exact Hs|].
-        intros q k t0 (vv & Ev & Es). unfold owns, pview. rewrite L7. destruct (Nat.eqb_spec q p) as [->|]; [|exact (ex_intro _ vv (conj Ev Es))].
-        unfold pview in Ev. rewrite Hpn in Ev. inversion Ev; subst vv. destruct k; discriminate Es. }
+        split.
+        + intros q k t0 (vv & Ev & Es). unfold owns, pview. rewrite L7. destruct (Nat.eqb_spec q p) as [->|]; [|exact (ex_intro _ vv (conj Ev Es))].
+          unfold pview in Ev. rewrite Hpn in Ev. inversion Ev; subst vv. destruct k; discriminate Es.
+        + intros q vv t0 Ev Et. unfold pview in *. rewrite L7. destruct (Nat.eqb_spec q p) as [->|]; [|exists vv; auto].
+          rewrite Hpn in Ev. inversion Ev; subst vv. discriminate Et. }
     pose proof (GR_SC _ _ G77 Hinv7 SCn) as SC7. pose proof (GR_COH fn _ _ G77 COHn) as COH7.
     assert (Hip : imm_of w7 p = None).
     { rewrite IO7. unfold imm_of. rewrite Hpn. reflexivity. }
@@ -229,7 +232,7 @@ Section Mixed.
     - intros p0 [q l] Hi. apply in_ORD in Hi. destruct Hi as (t0 & pos & ser & b' & Ho & Hs & Hi). apply in_ORD. exists t0, pos, ser, b'.
       split; [unfold owns; rewrite Pv; exact Ho|]. split; [unfold slot_at; rewrite Tv; exact Hs|unfold imm; rewrite Gb; exact Hi].
     - split; [intros t0 pos ser label act Hs; unfold slot_at in *; rewrite Tv in Hs; exact Hs|].
-      intros q k t0 Ho. unfold owns. rewrite Pv. exact Ho.
+      split; [intros q k t0 Ho; unfold owns; rewrite Pv; exact Ho|intros q vv t0 Ev Et; exists vv; rewrite Pv; auto].
   Qed.
 
   (* ---- histories of mixed worlds: PropMove.grow_op3, evaluator objects, fresh properties bound through an evaluator, evaluateAll ---- *)
